@@ -275,7 +275,7 @@ func galDims(p *jPoint) string {
 	return galKey(p.goDims())
 }
 
-func (q *jQuery) Gal(t *jTable, idx int, now time.Time) string {
+func (q *jQuery) Gal(t *jTable, idx int, now time.Time, flushed int) string {
 	fs := "None"
 	if q.Fields != nil {
 		items := make([]string, len(q.Fields))
@@ -304,18 +304,27 @@ func (q *jQuery) Gal(t *jTable, idx int, now time.Time) string {
 	if q.Where != nil {
 		w = fmt.Sprintf("(Some %d%%nat)", idx+1)
 	}
-	return fmt.Sprintf("{| q_fields := %s; q_groupby := %s; q_period := %s; q_asof := %s; q_until := %s; q_where := %s; q_now := %s |}",
-		fs, gb, gz(q.PeriodNS), asof, until, w, gtime(now))
+	vis := "None"
+	if !q.Mem {
+		vis = fmt.Sprintf("(Some %d%%nat)", flushed)
+	}
+	lim := "None"
+	if q.HasLimit && len(q.Order) == 0 {
+		lim = fmt.Sprintf("(Some %d)", q.Limit)
+	}
+	return fmt.Sprintf("{| q_fields := %s; q_groupby := %s; q_period := %s; q_asof := %s; q_until := %s; q_where := %s; q_now := %s; q_vis := %s; q_limit := %s |}",
+		fs, gb, gz(q.PeriodNS), asof, until, w, gtime(now), vis, lim)
 }
 
 // ---- running one case ----
 
 type qResult struct {
-	q    *jQuery
-	sql  string
-	err  error
-	rows []obsRow
-	now  time.Time
+	flushed int
+	q       *jQuery
+	sql     string
+	err     error
+	rows    []obsRow
+	now     time.Time
 }
 
 func runDBCase(e *Env, c *jDBCase) error {
@@ -333,6 +342,7 @@ func runDBCase(e *Env, c *jDBCase) error {
 		}
 	}()
 	written := int64(0)
+	flushed := 0 // number of points on disk (a prefix of the history)
 	for i := range c.Points {
 		p := &c.Points[i]
 		if err := db.Insert("inbound", p.TS.T(), p.goDims(), p.goVals()); err != nil {
@@ -344,6 +354,7 @@ func runDBCase(e *Env, c *jDBCase) error {
 				return err
 			}
 			db.FlushAll()
+			flushed = i + 1
 			e.Count("flushes")
 		}
 		if contains(c.ReopenAt, i) {
@@ -351,7 +362,8 @@ func runDBCase(e *Env, c *jDBCase) error {
 				return err
 			}
 			now := db.VerifNow()
-			db.Close()
+			db.Close() // flushes
+			flushed = i + 1
 			db, err = openDB(dir, t, "t")
 			if err != nil {
 				return fmt.Errorf("reopen: %v", err)
@@ -367,80 +379,28 @@ func runDBCase(e *Env, c *jDBCase) error {
 	}
 	if c.FinalFlush {
 		db.FlushAll()
+		flushed = len(c.Points)
 	}
 	var results []qResult
 	for i := range c.Queries {
 		q := &c.Queries[i]
+		if q.FlushBefore {
+			db.FlushAll()
+			flushed = len(c.Points)
+		}
 		s := q.SQL("t", t.Conds)
 		now := db.VerifNow()
 		_, rows, err := runQuery(db, s, q.Mem)
-		results = append(results, qResult{q, s, err, rows, now})
+		results = append(results, qResult{flushed, q, s, err, rows, now})
 	}
 	db.Close()
 	closed = true
 
-	// oracle columns evaluated with the real goexpr
-	var whereEx goexpr.Expr
-	if t.Where != nil {
-		if whereEx, err = t.Where.compile(); err != nil {
-			return err
-		}
+	g, err := galDBCase(t, c.Points, c.Queries, results)
+	if err != nil {
+		return err
 	}
-	condEx := make([]goexpr.Expr, len(t.Conds))
-	for i, cd := range t.Conds {
-		if condEx[i], err = cd.compile(); err != nil {
-			return err
-		}
-	}
-	// the SQL the harness printed means the expression the model was given: parse it with the
-	// real parser and compare String() with the expression built programmatically from the AST
-	if pq, perr := sql.Parse(t.SQL()); perr == nil {
-		if pfs, ferr := pq.Fields.Get(nil); ferr == nil && len(pfs) == len(t.Fields) {
-			for i, f := range t.Fields {
-				if want := f.E.RealC(condEx).String(); pfs[i].Expr.String() != want {
-					return fmt.Errorf("harness SQL printer mismatch: field %s parses to %v, AST is %v", f.Name, pfs[i].Expr, want)
-				}
-			}
-		} else {
-			return fmt.Errorf("harness SQL printer: cannot resolve fields of %q: %v", t.SQL(), ferr)
-		}
-	}
-	qWhere := make([]goexpr.Expr, len(c.Queries))
-	for i := range c.Queries {
-		if c.Queries[i].Where != nil {
-			if qWhere[i], err = c.Queries[i].Where.compile(); err != nil {
-				return err
-			}
-		}
-	}
-	pts := make([]string, len(c.Points))
-	for i := range c.Points {
-		p := &c.Points[i]
-		dims := dimsBytemap(p)
-		flags := []string{gbool(whereEx == nil || evalPred(whereEx, dims))}
-		tk := tableKey(t, p)
-		for _, qw := range qWhere {
-			flags = append(flags, gbool(qw == nil || evalPred(qw, tk)))
-		}
-		var vals []string
-		if len(p.Vals) > 0 {
-			vals = append(vals, "(9, 1)")
-		}
-		for _, f := range []string{"a", "b", "c", "x"} {
-			if v, ok := p.Vals[f]; ok {
-				vals = append(vals, fmt.Sprintf("(%d, %s)", fieldID(f), gz(v)))
-			}
-		}
-		conds := make([]string, len(condEx))
-		for j, ce := range condEx {
-			conds[j] = gbool(evalPred(ce, dims))
-		}
-		pts[i] = fmt.Sprintf("{| tp_ts := %s; tp_dims := %s; tp_pt := {| p_vals := %s; p_md := %s |}; tp_flags := %s |}",
-			gtime(p.TS.T()), galDims(p), glist(vals), glist(conds), glist(flags))
-	}
-	runs := make([]string, len(results))
-	for i, r := range results {
-		runs[i] = fmt.Sprintf("{| qr_q := %s;\n      qr_err := %s;\n      qr_rows := %s |}", r.q.Gal(t, i, r.now), gbool(r.err != nil), galORows(r.rows))
+	for _, r := range results {
 		if r.err != nil {
 			e.Count("query_errors")
 			msg := r.err.Error()
@@ -451,7 +411,6 @@ func runDBCase(e *Env, c *jDBCase) error {
 		}
 		e.Add("rows", len(r.rows))
 	}
-	g := fmt.Sprintf("{| dc_table := %s;\n   dc_points := [%s];\n   dc_runs := [%s] |}", t.Gal(), strings.Join(pts, ";\n     "), strings.Join(runs, ";\n     "))
 	c.NT = len(c.Points) >= 3
 	e.Case(g, c)
 	e.Add("points", len(c.Points))
@@ -521,6 +480,30 @@ func genDBCase(e *Env) *jDBCase {
 			q := genGroupQuery(r, t, r.Intn(3) == 0)
 			q.Where = genKeyPred(r, t)
 			c.Queries = append(c.Queries, q)
+		}
+	case "c04": // queries are read-only: probe, Q, probe, flush, probe
+		probe := func() jQuery {
+			if r.Intn(2) == 0 {
+				return jQuery{Mem: true}
+			}
+			q := genGroupQuery(r, t, false)
+			q.PeriodNS = 0
+			return q
+		}
+		for i := 0; i < 2; i++ {
+			pr := probe()
+			q := genGroupQuery(r, t, true)
+			// time ranges that end before the newest stored period are the interesting ones
+			if r.Intn(2) == 0 {
+				ns := baseSec*int64(time.Second) + int64(2+r.Intn(8))*t.ResNS
+				q.HasAsOf, q.HasUntil = true, true
+				q.AsOf = XTime{S: baseSec - 10*t.ResNS/int64(time.Second)}
+				q.Until = XTime{S: ns / int64(time.Second), NS: ns % int64(time.Second)}
+			}
+			q.Mem = r.Intn(4) > 0
+			pr2, pr3 := pr, pr
+			pr3.FlushBefore = true
+			c.Queries = append(c.Queries, pr, q, pr2, pr3)
 		}
 	default: // c01: native query
 		c.Queries = []jQuery{{Mem: true}}
@@ -674,4 +657,75 @@ func isBoolExpr(e *XExpr) bool {
 		return false
 	}
 	return true
+}
+
+// galDBCase prints a db_case: the table, the points with their oracle columns (WHERE flags and IF
+// conditions evaluated with the real goexpr) and the observed query results.
+func galDBCase(t *jTable, points []jPoint, queries []jQuery, results []qResult) (string, error) {
+	var err error
+	// oracle columns evaluated with the real goexpr
+	var whereEx goexpr.Expr
+	if t.Where != nil {
+		if whereEx, err = t.Where.compile(); err != nil {
+			return "", err
+		}
+	}
+	condEx := make([]goexpr.Expr, len(t.Conds))
+	for i, cd := range t.Conds {
+		if condEx[i], err = cd.compile(); err != nil {
+			return "", err
+		}
+	}
+	// the SQL the harness printed means the expression the model was given: parse it with the
+	// real parser and compare String() with the expression built programmatically from the AST
+	if pq, perr := sql.Parse(t.SQL()); perr == nil {
+		if pfs, ferr := pq.Fields.Get(nil); ferr == nil && len(pfs) == len(t.Fields) {
+			for i, f := range t.Fields {
+				if want := f.E.RealC(condEx).String(); pfs[i].Expr.String() != want {
+					return "", fmt.Errorf("harness SQL printer mismatch: field %s parses to %v, AST is %v", f.Name, pfs[i].Expr, want)
+				}
+			}
+		} else {
+			return "", fmt.Errorf("harness SQL printer: cannot resolve fields of %q: %v", t.SQL(), ferr)
+		}
+	}
+	qWhere := make([]goexpr.Expr, len(queries))
+	for i := range queries {
+		if queries[i].Where != nil {
+			if qWhere[i], err = queries[i].Where.compile(); err != nil {
+				return "", err
+			}
+		}
+	}
+	pts := make([]string, len(points))
+	for i := range points {
+		p := &points[i]
+		dims := dimsBytemap(p)
+		flags := []string{gbool(whereEx == nil || evalPred(whereEx, dims))}
+		tk := tableKey(t, p)
+		for _, qw := range qWhere {
+			flags = append(flags, gbool(qw == nil || evalPred(qw, tk)))
+		}
+		var vals []string
+		if len(p.Vals) > 0 {
+			vals = append(vals, "(9, 1)")
+		}
+		for _, f := range []string{"a", "b", "c", "x"} {
+			if v, ok := p.Vals[f]; ok {
+				vals = append(vals, fmt.Sprintf("(%d, %s)", fieldID(f), gz(v)))
+			}
+		}
+		conds := make([]string, len(condEx))
+		for j, ce := range condEx {
+			conds[j] = gbool(evalPred(ce, dims))
+		}
+		pts[i] = fmt.Sprintf("{| tp_ts := %s; tp_dims := %s; tp_pt := {| p_vals := %s; p_md := %s |}; tp_flags := %s |}",
+			gtime(p.TS.T()), galDims(p), glist(vals), glist(conds), glist(flags))
+	}
+	runs := make([]string, len(results))
+	for i, r := range results {
+		runs[i] = fmt.Sprintf("{| qr_q := %s;\n      qr_err := %s;\n      qr_rows := %s |}", r.q.Gal(t, i, r.now, r.flushed), gbool(r.err != nil), galORows(r.rows))
+	}
+	g := fmt.Sprintf("{| dc_table := %s;\n   dc_points := [%s];\n   dc_runs := [%s] |}", t.Gal(), strings.Join(pts, ";\n     "), strings.Join(runs, ";\n     "))
+	return g, nil
 }
